@@ -73,7 +73,24 @@ def x2_ack_points(crate):
     out += body[last:]
     new = src.text[:loc['body_open']] + out + src.text[loc['end']:]
     open(path, 'w').write(new)
-    return 'X2 %s: %d interference points inserted in CommandAcknowledgementHandle::done (after each of its %d top-level statements)' % (rel, len(ends) + 1, len(ends))
+    msg = 'X2 %s: %d interference points inserted in CommandAcknowledgementHandle::done (after each of its %d top-level statements)' % (rel, len(ends) + 1, len(ends))
+    # X2b: the same inside `poll` (a poll is not atomic either: the worker's status write and flag store can land between any
+    # two of its statements): `verif_kani::poll_point(&**self, k)` before the first and after every top-level statement of poll
+    src = Source(path)
+    loc = src.find_fn(r'^impl Future for &CommandAcknowledgementHandle$', 'poll')
+    body = src.text[loc['body_open']:loc['end']]
+    ends = top_level_statements(body, tail_is_statement=False)
+    if not ends:
+        raise InstrumentError('X2b: no top-level statements found in poll')
+    out = body[:1] + '\n        #[cfg(kani)] verif_kani::poll_point(&**self, 0);'
+    last = 1
+    for k, e in enumerate(ends):
+        out += body[last:e] + '\n        #[cfg(kani)] verif_kani::poll_point(&**self, %d);' % (k + 1)
+        last = e
+    out += body[last:]
+    new = src.text[:loc['body_open']] + out + src.text[loc['end']:]
+    open(path, 'w').write(new)
+    return msg + '; X2b: %d interference points inserted in poll (after each of its %d top-level statements; the tail expression is not a statement)' % (len(ends) + 1, len(ends))
 
 
 def strip_test_modules(crate):
